@@ -224,6 +224,17 @@ func runComputeProps(prop string) func(h *H) {
 					a = 0.001
 					e = 0.05
 				}
+				if g.intn(4) == 0 {
+					// "resume": warm start from the partial result of a run capped at k iterations, first
+					// check of the resumed run scheduled at iteration k
+					kk := g.intn(3) + 1
+					o1 := copts{maxI: ip(kk)}
+					var st basic.FlatTailStats
+					if part, err := basic.Compute(context.Background(), cloneCSR(c), cloneVec(p), a, e, o1.goOpts(&st)...); err == nil {
+						o = copts{t0: part, minI: ip(kk)}
+						g.count("resume-from-partial")
+					}
+				}
 			case "C02":
 				a = []float64{0, 1, 0.5, 0.15, 0.9, 0.01}[g.intn(6)]
 				if g.intn(2) == 0 {
@@ -330,5 +341,8 @@ func runComputeProps(prop string) func(h *H) {
 			h.emit(w)
 		}
 		h.notes["outcomes"] = outcomes
+		if prop == "C02" {
+			runOapiC02(h)
+		}
 	}
 }
